@@ -34,7 +34,40 @@ def against(vec, exp, obs) -> List[str]:
     return out
 
 
+FRAME_ROWS = Slice(
+    name="FrameRows.drop",
+    module="FrameRows",
+    cfg={"quick": "mc/MC_FrameRows_quick.cfg", "thorough": "mc/MC_FrameRows_thorough.cfg"},
+    observe=("vf.obs_rows", "observe_rows"),
+    cap={"quick": 10000, "thorough": 120000},
+    select=lambda v: v.get("mode") == "drop",
+)
+
+
+def compare_rows(vec: Dict[str, Any], obs: Dict[str, Any]) -> Outcome:
+    """DataFrameSchema level, pandas and polars (FrameRows.tla)"""
+    oc = Outcome()
+    exp = vec["expect"]
+    mism = []
+    if obs["kind"].startswith("Leak"):
+        mism.append("%s %s: %s (%s)" % (vec["backend"], vec["mode"], obs["kind"], obs.get("msg", "")[:80]))
+    elif obs["kind"] != exp["kind"]:
+        mism.append("%s %s head=%s tail=%s: specification predicts %s, pandera %s %s"
+                    % (vec["backend"], vec["mode"], vec["head"], vec["tail"], exp["kind"], obs["kind"], obs.get("reasons", "")))
+    elif obs["kind"] == "ok" and obs["kept"] != exp["kept"]:
+        mism.append("%s %s: rows returned %s, specification %s" % (vec["backend"], vec["mode"], obs["kept"], exp["kept"]))
+    if mism and vec.get("devs") and obs["kind"] == vec["asis"] and (vec["mode"] != "drop" or obs.get("kept") == vec["asis_kept"]):
+        oc.known = list(vec["devs"])
+        mism = []
+    oc.mismatches = mism
+    s = vec["schema"]
+    oc.sig = "rows|%s|%s|%s|%s|%s|n=%d|%s" % (vec["backend"], vec["mode"], sorted(s.items()), vec["head"], vec["tail"], len(vec["a"]), exp["kind"])
+    return oc
+
+
 def compare(vec: Dict[str, Any], obs: Dict[str, Any]) -> Outcome:
+    if vec.get("kind") == "rows":
+        return compare_rows(vec, obs)
     oc = Outcome()
     mism = against(vec, vec["expect"], obs)
     if mism and vec.get("devs"):
@@ -56,7 +89,7 @@ def compare(vec: Dict[str, Any], obs: Dict[str, Any]) -> Outcome:
 PROP = Prop(
     id="C11",
     title="drop_invalid_rows removes exactly the rows that violate a row-level constraint",
-    slices=[SERIES_DROP],
+    slices=[SERIES_DROP, FRAME_ROWS],
     compare=compare,
     rule=("TLC enumerates schemas with drop_invalid_rows=True (nullability, uniqueness with each report_duplicates setting, "
           "one or two checks, dtype mismatch as a non-row violation) x data with unique default and shuffled index labels, "
